@@ -18,6 +18,10 @@ Leaves == { Lit(I(1)), Lit(UintV(FromInt(1))), Lit(Fin(FALSE, <<3>>, -1)), Lit(B
             Lit(IntV(IntMax(64))), Lit(IntV(IntMin(64))), Lit(UintV(UintMax(64))), Lit(Ts(TsMax)), Lit(Ts(TsMin)), Lit(Dur(DurLim)),
             \* doubles that have no literal: an infinity and a NaN (as operands, indexes, keys, arguments ...)
             Bin("/", Lit(Fin(FALSE, <<1>>, 0)), Lit(Zero(FALSE))), Bin("/", Lit(Zero(FALSE)), Lit(Zero(FALSE))) }
+HostileZones == { <<69,117,114,111,112,101>>, <<65,109,101,114,105,99,97,47,65,114,103,101,110,116,105,110,97>>, <<69,116,99>>, <<69,117,114,111,112,101,47>>, <<47>>, <<46>>, <<46,46>>,
+                  <<46,46,47,101,116,99,47,112,97,115,115,119,100>>, <<122,111,110,101,46,116,97,98>>, <<112,111,115,105,120>>, <<32>>, <<0>>, <<85,84,67,0>>, <<43>>, <<43,50,53,58,48,48>>,
+                  <<45,48,48,58,54,48>>, <<69,117,114,111,112,101,47,80,97,114,105,115,47>>, <<233>>, <<128049>>, [j \in 1..300 |-> 97] }
+                  \* Europe  America/Argentina  Etc  Europe/  /  .  ..  ../etc/passwd  zone.tab  posix  " "  NUL  UTC+NUL  +  +25:00  -00:60  Europe/Paris/  e-acute  non-BMP  300 x a
 Few == { Lit(I(1)), Lit(S(<<97>>)) }
 X == Var("x")
 Fns1 == {"size", "int", "uint", "double", "string", "bytes", "bool", "type", "timestamp", "duration", "dyn", "getFullYear", "matches", "unknown_function"}
@@ -37,6 +41,8 @@ Roots ==
                                              as \in {<<>>, <<X>>, <<X, X, X>>, <<X, X, X, X>>, <<Lit(I(1)), X>>, <<Sel(X, <<97>>), X>>} }
   \cup { Call("has", as) : as \in {<<>>, <<X>>, <<Lit(I(1))>>, <<Sel(X, <<97>>), X>>, <<Idx(X, Lit(I(0)))>>} }
   \cup { Call("dyn", as) : as \in {<<>>, <<X, X>>} }
+  \* zone names that are not zones: directories and data files of the tz database, paths, blank and very long names
+  \cup { MCall(Lit(Ts(Z)), f, <<Lit(S(z))>>) : f \in {"getHours", "getDayOfYear", "getFullYear"}, z \in HostileZones }
   \cup { Var(n) : n \in HostileIdents } \cup { Bin("+", Var(n), Lit(I(1))) : n \in HostileIdents }
   \cup { Macro("map", Lit(List(<<I(1)>>)), n, Var(n)) : n \in HostileIdents } \cup { Sel(Lit(Map(<< <<S(<<97>>), I(1)>> >>)), <<97>>) : n \in {1} }
   \cup { MsgLit(n, fs) : n \in {"M", "google.protobuf.Int32Value", "google.protobuf.Duration"},
